@@ -241,7 +241,7 @@ struct numeric_limits<char8_t> {
     static constexpr auto max() noexcept -> char8_t { return UCHAR_MAX; }
     static constexpr auto lowest() noexcept -> char8_t { return min(); }
 
-    static constexpr bool is_signed  = CHAR_MIN < 0;
+    static constexpr bool is_signed  = false;
     static constexpr bool is_integer = true;
     static constexpr bool is_exact   = true;
     static constexpr int radix       = 2;
